@@ -197,7 +197,8 @@ def opsOf : Ops F where
   inv := fun x => if x = 0 then none else some x⁻¹
   isZero := fun x => x = 0
 
-/-- `IsogenyMap::apply(domain_point)`; a point is `none` (identity) or `some (x, y)` -/
+/-- `IsogenyMap::apply(domain_point)`; a point is `none` (identity) or `some (x, y)`.
+    A denominator vanishing at `x` returns `Affine::identity()` before the batch inversion. -/
 def isoApply (iso : Iso F) (pt : Option (F × F)) : Outcome (Option (F × F)) :=
   match pt with
   | none => .ok none
@@ -206,13 +207,17 @@ def isoApply (iso : Iso F) (pt : Option (F × F)) : Outcome (Option (F × F)) :=
     let x_den := polyOfSlice iso.xDen
     let y_num := polyOfSlice iso.yNum
     let y_den := polyOfSlice iso.yDen
-    let v := [polyEval x_den x, polyEval y_den x]
-    match (opsOf (F := F)).batchInvMul v 1 with            -- batch_inversion(&mut v): zeros stay zero
-    | some [v0, v1] =>
-      let img_x := polyEval x_num x * v0
-      let img_y := (polyEval y_num x * y) * v1
-      .ok (some (img_x, img_y))
-    | _ => .panic
+    let vx := polyEval x_den x
+    let vy := polyEval y_den x
+    -- (after the `fix:` commit 0d9b7ba) the poles of the rational maps go to the point at infinity
+    if vx = 0 ∨ vy = 0 then .ok none
+    else
+      match (opsOf (F := F)).batchInvMul [vx, vy] 1 with     -- batch_inversion(&mut v)
+      | some [v0, v1] =>
+        let img_x := polyEval x_num x * v0
+        let img_y := (polyEval y_num x * y) * v1
+        .ok (some (img_x, img_y))
+      | _ => .panic
 
 /-- `WBMap::<P>::map_to_curve(element)` -/
 def wbMap (X : FieldX F) (a' b' zeta : F) (iso : Iso F) (u : F) : Outcome (Option (F × F)) :=
